@@ -14,6 +14,14 @@
 (* prints the ID of its target.  A print that skips the assignment because *)
 (* "the last definition is numbered" leaves a definition at -1.            *)
 (*                                                                         *)
+(* Second kind of history (del > 0): after the first print a definition   *)
+(* that no other definition refers to is REMOVED from MetadataDefs, then   *)
+(* the unnumbered definition is inserted and the module printed again.     *)
+(* The removed definition's number is free again: it is a gap below the    *)
+(* numbers the first print handed out, and "smallest unused" must find it  *)
+(* (an assignment that continues after the highest number, or remembers    *)
+(* the numbers it once gave, does not).                                    *)
+(*                                                                         *)
 (* The machine enumerates ID lists (length <= MaxDefs over -1..MaxId,      *)
 (* enumeration in Next), a graph shape and the insert position; HistLaws   *)
 (* is checked by TLC on every history; EmitHist writes md_hist.ndjson:     *)
@@ -25,41 +33,46 @@
 EXTENDS Integers, Sequences, FiniteSets, TLC, Json, IOUtils
 
 CONSTANTS MaxDefs, MaxId, Emit
-VARIABLES ids, shape, ins, stage
-vars == <<ids, shape, ins, stage>>
+VARIABLES ids, shape, ins, del, stage
+vars == <<ids, shape, ins, del, stage>>
 
 M == INSTANCE Metadata WITH Variant <- "code", Emit <- FALSE, ids <- <<>>, shape <- 0, stage <- "none"
 
 HistShapes == {1, 2, 3, 6}      \* none, forward chain, cycle, complete graph
 
-Init == ids = <<>> /\ shape = 0 /\ ins = -1 /\ stage = "build"
+Init == ids = <<>> /\ shape = 0 /\ ins = -1 /\ del = 0 /\ stage = "build"
 Extend == /\ stage = "build" /\ Len(ids) < MaxDefs
           /\ \E v \in -1..MaxId : ids' = Append(ids, v)
-          /\ UNCHANGED <<shape, ins, stage>>
+          /\ UNCHANGED <<shape, ins, del, stage>>
 Choose == /\ stage = "build" /\ Len(ids) >= 1 /\ M!MdAssign(ids).ok
           /\ \E s \in HistShapes, p \in 0..Len(ids) : shape' = s /\ ins' = p
-          /\ stage' = "done" /\ UNCHANGED ids
-Next == Extend \/ Choose
+          /\ del' = 0 /\ stage' = "done" /\ UNCHANGED ids
+ChooseDel == /\ stage = "build" /\ Len(ids) >= 2 /\ M!MdAssign(ids).ok
+             /\ \E s \in HistShapes : \E d \in M!Deletable(M!Refs(s, Len(ids))) : \E p \in 0..(Len(ids) - 1) :
+                   shape' = s /\ del' = d /\ ins' = p
+             /\ stage' = "done" /\ UNCHANGED ids
+Next == Extend \/ Choose \/ ChooseDel
 Spec == Init /\ [][Next]_vars
 
 First   == M!MdAssign(ids)
-Second  == M!MdAssign(M!InsAt(First.ids, ins, -1))
+Kept    == M!DelAt(First.ids, del)            \* the numbered definitions the second print starts from
+Second  == M!MdAssign(M!InsAt(Kept, ins, -1))
 Refs1   == M!Refs(shape, Len(ids))
-Refs2   == M!InsRefs(Refs1, ins)
+Refs2   == M!InsRefs(M!DelRefs(Refs1, del), ins)
 
 HistLaws == stage = "done" =>
-  LET s2 == M!InsAt(First.ids, ins, -1) IN
+  LET s2 == M!InsAt(Kept, ins, -1) IN
   /\ Second.ok /\ M!LawsHold(s2, Second)
-  \* every old definition keeps the number the first print gave it
-  /\ \A i \in 1..Len(ids) : Second.ids[IF i > ins THEN i + 1 ELSE i] = First.ids[i]
-  \* the new definition receives the smallest number not in use
+  \* every remaining old definition keeps the number the first print gave it
+  /\ \A i \in 1..Len(Kept) : Second.ids[IF i > ins THEN i + 1 ELSE i] = Kept[i]
+  \* the new definition receives the smallest number not in use (the removed definition's, if that is it)
   /\ LET new == Second.ids[ins + 1] IN
-       /\ new \notin {First.ids[i] : i \in 1..Len(ids)}
-       /\ \A k \in 0..(new - 1) : k \in {First.ids[i] : i \in 1..Len(ids)}
+       /\ new \notin {Kept[i] : i \in 1..Len(Kept)}
+       /\ \A k \in 0..(new - 1) : k \in {Kept[i] : i \in 1..Len(Kept)}
   \* printing a third time changes nothing
   /\ M!MdAssign(Second.ids) = Second
 
-Hist == [ids |-> ids, shape |-> shape, refs |-> Refs1, ins |-> ins,
+Hist == [ids |-> ids, shape |-> shape, refs |-> Refs1, ins |-> ins, del |-> del,
          want  |-> [ok |-> TRUE, ids |-> First.ids, tokens |-> M!Tokens(First.ids, Refs1)],
          refs2 |-> Refs2,
          want2 |-> [ok |-> Second.ok, ids |-> Second.ids, tokens |-> M!Tokens(Second.ids, Refs2)]]
